@@ -27,7 +27,10 @@ use tari_bulletproofs_plus::{
 type P = RistrettoPoint;
 static BIG: std::sync::OnceLock<RangeParameters<P>> = std::sync::OnceLock::new();
 static BULK: std::sync::OnceLock<Vec<Made>> = std::sync::OnceLock::new();
-pub const NCALLS: usize = 15;
+static FLOOD: std::sync::OnceLock<Vec<[u8; 32]>> = std::sync::OnceLock::new();
+/// how many distinct encodings call 15 pushes through the library's point decoding
+pub static FLOOD_N: std::sync::atomic::AtomicUsize = std::sync::atomic::AtomicUsize::new(40000);
+pub const NCALLS: usize = 16;
 
 fn digest(parts: &[&[u8]]) -> String {
     let mut h = Sha3_256::new();
@@ -165,6 +168,39 @@ pub fn call_opt(c: usize, shared: Option<&RangeParameters<P>>) -> String {
             let stmts: Vec<RangeStatement<P>> = bulk.iter().map(|m| m.stmt.clone()).collect();
             let proofs: Vec<RangeProof<P>> = bulk.iter().map(|m| RangeProof::<P>::from_bytes(&m.proof.to_bytes()).unwrap()).collect();
             verify_digest(&stmts, &proofs, VerifyAction::VerifyOnly)
+        },
+        15 => {
+            // volume: tens of thousands of DISTINCT encodings (half of them points, half mostly not) go through the library's
+            // point decoding on this thread; state that only builds up with volume shows in this call's own result when it
+            // is repeated, and in every later call of the thread
+            use tari_bulletproofs_plus::traits::Decompressable;
+            let n = FLOOD_N.load(std::sync::atomic::Ordering::Relaxed);
+            let list = FLOOD.get_or_init(|| {
+                (0..n).map(|i| {
+                    let mut h = sha3::Sha3_512::new();
+                    h.update(b"bppv flood");
+                    h.update((i as u64).to_le_bytes());
+                    let w: [u8; 64] = h.finalize().into();
+                    if i % 2 == 0 {
+                        RistrettoPoint::from_uniform_bytes(&w).compress().to_bytes()
+                    } else {
+                        let mut b = [0u8; 32];
+                        b.copy_from_slice(&w[..32]);
+                        b
+                    }
+                }).collect()
+            });
+            let mut h = Sha3_256::new();
+            for b in list {
+                match Decompressable::decompress(&curve25519_dalek::ristretto::CompressedRistretto(*b)) {
+                    Some(p) => {
+                        h.update([1u8]);
+                        h.update(p.compress().as_bytes());
+                    },
+                    None => h.update([0u8]),
+                }
+            }
+            h.finalize().iter().map(|b| format!("{:02x}", b)).collect()
         },
         _ => {
             let a = make(shared.expect("shared parameter object").clone(), 2, 2, false, 11);
